@@ -233,7 +233,7 @@ func (m *Manager) CreateAllocation( // nolint: cyclop
 	m.log.Debugf("Listening on relay address: %s", alloc.RelayAddr)
 
 	alloc.lifetimeTimer = time.AfterFunc(lifetime, func() {
-		m.DeleteAllocation(alloc.fiveTuple)
+		m.endAllocation(alloc)
 	})
 
 	m.lock.Lock()
@@ -259,16 +259,27 @@ func (m *Manager) CreateAllocation( // nolint: cyclop
 
 // DeleteAllocation removes an allocation.
 func (m *Manager) DeleteAllocation(fiveTuple *FiveTuple) {
+	m.deleteAllocation(fiveTuple, nil)
+}
+
+// endAllocation is how an allocation ends itself (lifetime timer, failed relay
+// socket): it removes that very allocation, not a successor on the same 5-tuple.
+func (m *Manager) endAllocation(a *Allocation) {
+	m.deleteAllocation(a.fiveTuple, a)
+}
+
+func (m *Manager) deleteAllocation(fiveTuple *FiveTuple, only *Allocation) {
 	fingerprint := fiveTuple.Fingerprint()
 
 	m.lock.Lock()
 	allocation := m.allocations[fingerprint]
-	delete(m.allocations, fingerprint)
-	m.lock.Unlock()
+	if allocation == nil || (only != nil && allocation != only) {
+		m.lock.Unlock()
 
-	if allocation == nil {
 		return
 	}
+	delete(m.allocations, fingerprint)
+	m.lock.Unlock()
 
 	m.lock.Lock()
 	if err := allocation.Close(); err != nil {
